@@ -72,7 +72,7 @@ def gen_case(rng, supervised):
         est.fit(X.copy(), y.copy())
       else:
         if w is None:
-          est.fit(quads.copy())
+          est, ev['how'] = gen.fit_tuples_via(rng, est, X, idx)
         else:
           est.fit(quads.copy(), weights=(w.tolist() if wkind == 'list' else w.copy()))
       L = np.asarray(est.components_)
